@@ -530,7 +530,49 @@ def check_api(rep, ix):
         rep.ob('R-C19-API', f'{PL}:Plot', f'{kind} input: attribute reads on the frame holder followed through the plotter', n >= 8, found=str(n))
 
 
+def check_history(rep, ix):
+    """a plot is a function of the data, the interval and the format - not of what was plotted before"""
+    m = ix.module(PL)
+    # (1) the frames are loaded for this interval on every call (a frame set of the same size from another interval is not this one)
+    f = ix.get_func(PL, 'Plot._loadFrameSet')
+    site = f'{PL}:Plot._loadFrameSet'
+    g = cfgmod.CFG(f)
+    loads = [s_ for s_ in g.stmts() if any(isinstance(c.func, ast.Attribute) and c.func.attr == 'setFrameSetChX' for c in cfgmod.calls_at(s_))]
+    ok = len(loads) == 1
+    deps = []
+    if ok:
+        deps = [b for b, lab in g.control_deps(loads[0]) if isinstance(b, (ast.If, ast.While))]
+        c = [c for c in cfgmod.calls_at(loads[0]) if isinstance(c.func, ast.Attribute) and c.func.attr == 'setFrameSetChX'][0]
+        ps = [a.arg for a in f.args.args]
+        args = [_n(a) for a in c.args] + [f'{k.arg}={_n(k.value)}' for k in c.keywords]
+        ok = not deps and ps[3] in args and ps[4] in args
+    rep.ob('R-C19-PLOT', site, 'the frame set is loaded for the requested interval on every call, unconditionally', ok,
+           found='; '.join(_n(b.test)[:80] for b in deps) if deps else f'{len(loads)} load(s)', required='setFrameSetChX(file, channels, xStart, xStop, ...) not under any condition',
+           node=loads[0] if loads else f, module=m)
+    # (2) an engineering value derived from a stored one and then changed in place is a new object
+    common.check_fresh_returns(rep, 'R-C19-PLOT', ix, PL, extra_modules=('TotalDepth.LIS.core.EngVal',), only={'PlotRoll.__init__', 'PlotRoll.xDepth', 'PlotRoll.polyLinePt'})
+    # (3) the previous wrap and the previous position of a curve are remembered together: the interpolation is guarded by the
+    # position being known and then reads the wrap
+    ps_ = ix.get_func(PL, 'Plot._plotSingleOutput')
+    psite = f'{PL}:Plot._plotSingleOutput'
+    for a in walk_no_nested(ps_):
+        if isinstance(a, ast.Assign) and len(a.targets) == 1 and isinstance(a.targets[0], ast.Attribute) and a.targets[0].attr == 'prevWrap':
+            blk = getattr(a, '_parent', None)
+            body = next((b for b in (getattr(blk, 'body', []), getattr(blk, 'orelse', []), getattr(blk, 'finalbody', [])) if any(x is a for x in b)), [])
+            if isinstance(blk, ast.Try) and not body:
+                body = next((h.body for h in blk.handlers if any(x is a for x in h.body)), [])
+            if isinstance(blk, ast.ExceptHandler):
+                body = blk.body
+            mates = [x for x in body if isinstance(x, ast.Assign) and isinstance(x.targets[0], ast.Subscript) and _n(x.targets[0].value).startswith('ptPrev')]
+            none_w = isinstance(a.value, ast.Constant) and a.value.value is None
+            ok = bool(mates) and all((isinstance(x.value, ast.Constant) and x.value.value is None) == none_w for x in mates)
+            rep.ob('R-C19-PLOT', psite, f'`{_n(a)}` is paired with the previous position of the same curve ({"both forgotten" if none_w else "both remembered"})', ok,
+                   found='; '.join(_n(x) for x in mates) or 'no assignment of the previous position beside it',
+                   required='ptPrevS[i] set to None exactly where prevWrap is' if none_w else 'ptPrevS[i] = pt beside prevWrap = wr', node=a, module=m)
+
+
 def run(rep, ix, tier):
+    check_history(rep, ix)
     check_wrap(rep, ix)
     check_plot(rep, ix)
     check_precheck(rep, ix)
